@@ -63,9 +63,9 @@ PROPS.update({
     "C04": stf_prop(["STF/Proofs/Covenant.vo", "STF/Proofs/StdCovenant.vo"], ST_CODE | ST_COINS,
                     ["Hash / Ed25519 inside covenants are oracles answered from the implementation's own evaluation",
                      "known finding F15: inputs sharing a covenant hash with an earlier input of the same transaction are not re-evaluated"]),
-    "C09": {"coq_targets": ["STF/Proofs/Total.vo", "STF/Proofs/NoPanicBatch.vo"], "case_libs": ["Cases/Reflect.vo"], "streams": [("stf", ST_CODE), ("vm", VM_RESULT | VM_FUEL)],
+    "C09": {"coq_targets": ["STF/Proofs/Total.vo", "STF/Proofs/NoPanicBatch.vo", "STF/Proofs/SealTotal.vo", "STF/Proofs/Witness6.vo"], "case_libs": ["Cases/Reflect.vo"], "streams": [("stf", ST_CODE), ("vm", VM_RESULT | VM_FUEL)],
             "rule": STF_RULE + "; vm stream: every generated program runs under catch_unwind with a step cap; C09: any panic or step-cap hit on the real code is a violation",
-            "assumptions": ["proved: per-site unreachability and totality of a whole batch (C09_batch_never_panics) under stated state invariants and bounds (height <= 3*10^6, mint difficulty <= 40, per-transaction input sums < 2^128); totality of seal / apply_block over histories is checked on the real code (debug build, overflow checks on)", "allocation failure, stack depth and dependency internals are outside the model"]},
+            "assumptions": ["proved: per-site unreachability and totality of a whole batch (C09_batch_never_panics) under stated state invariants and bounds (height <= 3*10^6, mint difficulty <= 40, per-transaction input sums < 2^128) and of a whole seal (C09_seal_never_panics) under C20's invariant, C16's live and undrainable built-in pools, the subsidy-shift bound on the height and the 2^128 bound on fee pool + tips + MEL/SYM reserve; totality of apply_block (their composition with the header check) over histories is checked on the real code (debug build, overflow checks on)", "allocation failure, stack depth and dependency internals are outside the model"]},
     "C02": stf_prop(["STF/Proofs/Coins.vo"], ST_COINS | ST_CODE | ST_TXS,
                     ["distinct transactions have distinct hashes and dedup markers are not output coin ids (hash-oracle assumptions of the set equation)",
                      "rejection leaves the state unchanged: checked on the real code after every rejected batch (coin root, transaction set)"]),
@@ -107,7 +107,7 @@ MANIFEST_TEXT = {
                      'Thread schedules are explored, not proved (no theorem about a sequential model can exhibit them).', 'Coq proof (Permutation over gmap folds, head/tail split of a batch, state extensionality) + exhaustive small-permutation and thread-pool exploration'),
     "C04": _stf_text("Coq theorems: in an accepted batch every input is approved by a covenant of the coin's hash run on that input's own environment, except inputs sharing their covenant hash with an earlier input of the same transaction (known finding F15, stated in the theorem); missing / undecodable / failing covenants reject; the two standard signature covenants accept iff the expected slot of tx.sigs holds a <= 64 byte signature that verifies under the named key over the signature-free hash (symbolic execution of the 8-instruction programs for every transaction and environment).",
                      "Hash and Ed25519 are oracles.", "Coq proof (induction over inputs, symbolic execution) + differential replay + independent re-evaluation of every covenant"),
-    "C09": _stf_text("Coq theorems: covenant execution always terminates; checked totals cannot overflow; mint arithmetic cannot overflow; swaps / withdrawals are guarded; consistent counts never underflow; and a whole batch of arbitrary transactions never panics (state or rejection) under stated invariants and bounds (counts consistent, history below the current height with positive speeds, height <= 3*10^6, mint difficulty <= 40, input sums < 2^128). Checked on the real code: every call of every stream runs under catch_unwind in a debug build; any panic is a violation, and the model's explicit Panic outcomes are compared with the real ones.",
+    "C09": _stf_text("Coq theorems: covenant execution always terminates; checked totals cannot overflow; mint arithmetic cannot overflow; swaps / withdrawals are guarded; consistent counts never underflow; a whole batch of arbitrary transactions never panics (state or rejection) under stated invariants and bounds (counts consistent, history below the current height with positive speeds, height <= 3*10^6, mint difficulty <= 40, input sums < 2^128); and a whole seal never panics, for any proposer action (C09_seal_never_panics: every settlement phase, the peg, the subsidy and the reward are total), on states satisfying C20's invariant, with live built-in pools the block's withdrawals cannot drain (C16), height below TIP-909 + 128 million and fee pool + tips + MEL/SYM reserve below 2^128. Checked on the real code: every call of every stream runs under catch_unwind in a debug build; any panic is a violation, and the model's explicit Panic outcomes are compared with the real ones.",
                      'Partial: totality of seal / apply_block over whole histories, allocation, stack depth and dependency internals are not proved.', 'Coq proof (per-panic-site unreachability, whole-batch totality) + catch_unwind exploration with adversarial inputs'),
     "C02": _stf_text("Coq theorems: the coin map after an accepted batch is every insertion of the batch followed by the removal of every input; under the hash assumptions this is the set equation (inputs gone, each non-destroyed output present with exactly the declared value/covenant/data/height/denomination, markers present, every other coin untouched); acceptance implies well-formedness, no coin consumed twice, every input unspent before or created in the batch - for all states and batches.",
                      "Hash-oracle assumptions stated as hypotheses.", "Coq proof (gmap fold lemmas, list induction) + differential replay + reflection against an independent map-based spec"),
